@@ -105,8 +105,9 @@ instance {ε α : Type} [DecidableEq ε] [DecidableEq α] : DecidableEq (Except 
 /-! ### Rust `{:?}` rendering helpers (derive(Debug) output) -/
 
 /-- `char::escape_debug` for one char; `inStr` selects which quote is escaped.
-    ASCII / C1 control chars are escaped; every other char ≥ 0xA0 is emitted as is
-    (Rust additionally escapes unprintable / grapheme-extending code points). -/
+    Control chars (Cc) and the non-ASCII Unicode blanks are escaped as `\\u{hex}`; every
+    other char is emitted as is (Rust additionally escapes the remaining unprintable
+    (Cf, Cn, Co ..) and grapheme-extending code points — not modelled). -/
 def debugEscChar (inStr : Bool) (c : Char) : Str :=
   if c.toNat == 0 then str "\\0"
   else if c == '\t' then str "\\t"
@@ -115,7 +116,8 @@ def debugEscChar (inStr : Bool) (c : Char) : Str :=
   else if c == '\\' then str "\\\\"
   else if c == '"' && inStr then str "\\\""
   else if c == '\'' && !inStr then str "\\'"
-  else if isControl c then str "\\u{" ++ natToHex c.toNat ++ str "}"
+  else if isControl c || (isWhitespace c && c != ' ') then
+    str "\\u{" ++ natToHex c.toNat ++ str "}"
   else [c]
 
 /-- `{:?}` of a `&str` / `String`. -/
